@@ -79,6 +79,7 @@ fn p_conv<A: ColApi + From<B>, B: ColApi + From<A>>(start: u64, count: u64, stri
     // converting to B and back must be the identity when B has at least as many bits in every channel
     let widening = match (A::KIND, B::KIND) {
         (Kind::Rgb, Kind::Rgb) | (Kind::Gray, Kind::Gray) | (Kind::Gray, Kind::Rgb) => (0..3).all(|i| bits(ma[i]) <= bits(mb[i])),
+        (Kind::Bin, _) => true,
         _ => false,
     };
     for i in 0..count {
